@@ -210,6 +210,25 @@ PROPS = {
              "pass' offset inside the buffer the first pass sized; emit asserts guard the end). Long programs: div/mod at indexes up to 131071. Non-trivial: distinct accepted program (it was compiled).",
         trusted=EXEC_TRUST + ["Cranelift-internal failures (define_function) are covered by the runs only"],
     ),
+    "C18": dict(
+        suites=["xadd", "exec-memops"], oracle=oracle_no_panic, level="proof", model_is_spec=True,
+        nontrivial=lambda line, impl: line.startswith("xadd") and not line.startswith("xadd threads=1 ") or "c3" in line or "db" in line,
+        rule="suite xadd: 1, 2, 4 and 16 concurrent executions on every mix of {interpreter, x86-64 JIT, Cranelift} x widths 4/8 x addends {1, u64::MAX, 0x1_0000_0001, random} x initial values, 3,000 "
+             "(thorough 20,000) atomic adds each on one shared naturally aligned word between two canary words (a sampled-schedule stress test: the interleavings taken are whatever the hardware does); "
+             "misaligned offsets on the interpreter (error, memory unchanged); plus the single-threaded xadd cases of exec-memops (width, truncation, neighbours). Expected final word from the model "
+             "(schedule-independent by C18_interleaving_sum). Non-trivial: at least 2 threads, or a single-threaded xadd program.",
+        trusted=["AtomicU32/AtomicU64::fetch_add, x86 `lock add` and Cranelift `atomic_rmw` are each one indivisible step (the model's unit of interleaving)"],
+    ),
+    "C20": dict(
+        custom="run_c20", suites=["asm", "asmfuzz%4", "dis%2", "verify%3", "exec-matrix%4", "exec-memops", "exec-random%2", "exec-calls%3"], level="proof",
+        proof_of=["C01", "C06", "C13", "C14", "C15"],
+        nontrivial=lambda line, impl: True,
+        rule="both builds of the crate (default features; default-features = false, i.e. no_std) are driven over the same case files: the whole asm suite, every 4th asmfuzz text, every 2nd dis case, "
+             "every 3rd verify byte string, every 4th case of the C01 operation matrix, the memory matrix, every 2nd random program and every 3rd call graph - the interpreter on all of them and the x86-64 JIT "
+             "(no_std: running from caller-supplied mmap'ed executable memory through set_jit_exec_memory). Each transcript is diffed against the one Lean model (each with its own echoed host addresses) and the two "
+             "transcripts against each other wherever the outcome is address-independent. The quantifier over feature configurations {std, no_std} is enumerated completely. Non-trivial: distinct case line.",
+        trusted=["the no_std harness is a separate small crate (harness_nostd) printing the same formats"], exhaustive=False,
+    ),
     "C05": dict(
         suites=["exec-accepted", "exec-random", "exec-calls"], oracle=oracle_no_panic, level="proof", model_is_spec=True,
         nontrivial=lambda line, impl: impl.split()[0] not in ("rejected", "bad-op"),
@@ -328,7 +347,76 @@ def match_known(known, pid, line, impl, model_kv, mod=None):
 
 # ---------------------------------------------------------------------------- run
 
+def run_c20(core, pid, tier, seed, replay):
+    """C20: the default build and the no_std build are both diffed against the one model, and against each other"""
+    t0 = time.time()
+    cfg = PROPS[pid]
+    os.makedirs(os.path.join(ROOT, "replays"), exist_ok=True); os.makedirs(os.path.join(ROOT, "evidence"), exist_ok=True)
+    proof = dict(obligations=0, discharged=0, failures=[], axioms={}, checker_cmd="")
+    for dep in cfg["proof_of"]:
+        pr = core.proof_step(dep, tier == "thorough")
+        proof["obligations"] += pr["obligations"]; proof["discharged"] += pr["discharged"]; proof["failures"] += pr["failures"]
+        proof["axioms"].update(pr.get("axioms", {})); proof["checker_cmd"] += pr.get("checker_cmd", "") + " ; "
+    broken = [("proof", dict(theorem=t, why=w)) for (t, w) in proof["failures"]]
+    for feat in (None, "nostd"):
+        ok, msg = core.build_harness(feat)
+        if not ok:
+            rp = write_replay(pid, dict(kind="build", why="the %s harness failed to build from /repo's working tree" % (feat or "std"), log=msg))
+            print("VIOLATION property=%s replay=%s no-failing-input-found" % (pid, rp))
+            write_evidence(pid, tier, seed, cfg, proof, [], [], {}, t0, 1, {}); return 1
+    if replay:
+        rj = json.load(open(replay)); lines = rj.get("cases") or ([rj["case"]] if "case" in rj else [])
+    else:
+        lines = []
+        for s in cfg["suites"]:
+            name, _, sel = s.partition("%")
+            got = core.gen_cases(name, tier, seed, [])
+            if sel: got = got[::int(sel)]
+            if name.startswith("exec"): got = [l + " engines=jit kind=mbuff" for l in got if " extra=" not in l and " kind=" not in l]
+            lines += got
+    a = core.run_both(lines); b = core.run_both(lines, harn_bin=core.HARN_NOSTD_BIN)
+    ai = a["impl"][0].split("\n")[:-1]; am = a["model"][0].split("\n")[:-1]
+    bi = b["impl"][0].split("\n")[:-1]; bm = b["model"][0].split("\n")[:-1]
+    viol = []; dist = {}; nontriv = set(); mism = []
+    def jitpart(kv):
+        v = kv.get("jit")
+        if v is None: return None
+        return v.split(":code=")[0].split(":align=")[0]
+    n = min(len(lines), len(ai), len(am), len(bi), len(bm))
+    if n < len(lines): broken.append(("harness", dict(why="transcripts shorter than the case list: std %d/%d nostd %d/%d" % (len(ai), len(lines), len(bi), len(lines)))))
+    for i in range(n):
+        line = lines[i]
+        x, xkv = split_out(ai[i]); y, ykv = split_out(bi[i]); mx, mxkv = split_out(am[i]); my, mykv = split_out(bm[i])
+        if y == "skip": continue
+        key = line.split()[0] + ":" + x.split()[0].split(":")[0]; dist[key] = dist.get(key, 0) + 1
+        if x not in ("bad-op",): nontriv.add(line)
+        why = None
+        if x != mx: why = "default build gives '%s' where the model gives '%s'" % (x[:80], mx[:80])
+        elif y != my: why = "no_std build gives '%s' where the model gives '%s'" % (y[:80], my[:80])
+        else:
+            indep = not line.startswith("exec") or mxkv.get("claim") == "in"
+            if indep and x != y: why = "the two builds differ: default '%s' / no_std '%s'" % (x[:80], y[:80])
+            jx, jy = jitpart(xkv), jitpart(ykv)
+            if why is None and jx is not None and jy is not None and mxkv.get("claim") == "in" and jx != jy and not (jx.startswith("ok") != jy.startswith("ok") and False):
+                why = "JIT results differ between the builds: default '%s' / no_std (caller-supplied memory) '%s'" % (jx[:80], jy[:80])
+        if why: viol.append(dict(case=line, std=ai[i], nostd=bi[i], why=why))
+    rc = 0
+    if viol:
+        v = min(viol, key=lambda d: len(d["case"]))
+        rp = write_replay(pid, dict(kind="property", case=v["case"], std=v["std"], nostd=v["nostd"], why=v["why"], other_failing=len(viol) - 1))
+        print("VIOLATION property=%s replay=%s" % (pid, rp)); rc = 1
+    elif broken:
+        rp = write_replay(pid, dict(kind="not-shown", why="no case differs between the builds, but a proof obligation or the harness no longer checks", broken=[dict(kind=k, **d) for (k, d) in broken]))
+        print("VIOLATION property=%s replay=%s no-failing-input-found" % (pid, rp)); rc = 1
+    if replay:
+        for i in range(n): print("case  : " + lines[i][:300]); print("std   : " + ai[i][:300]); print("no_std: " + bi[i][:300]); print("model : " + am[i][:300])
+    samples = [dict(case=lines[i][:300], std=ai[i][:200], no_std=bi[i][:200]) for i in range(0, n, max(1, n // 8))][:10]
+    write_evidence(pid, tier, seed, cfg, proof, lines, samples, dist, t0, len(viol) + (1 if broken and not viol else 0),
+                   dict(known_findings_hit={}, disagreements=len(mism), distinct_nontrivial=len(nontriv), traces=2 * n))
+    return rc
+
 def run_property(core, pid, tier, seed, replay):
+    if PROPS[pid].get("custom"): return globals()[PROPS[pid]["custom"]](core, pid, tier, seed, replay)
     t0 = time.time()
     cfg = PROPS[pid]
     known = load_known()
